@@ -117,7 +117,7 @@ pub fn gen_text(r: &mut Rng, out: &mut Vec<u8>) {
 }
 
 pub fn gen_op(r: &mut Rng, d: Dim, out: &mut Vec<u8>, f: &Feat) {
-    match r.below(72) {
+    match r.below(76) {
         0..=15 => gen_text(r, out),
         16 | 17 => out.push(*r.pick(&[8u8, 9, 10, 11, 12, 13, 13, 10])),
         18 => out.extend(b"\r\n"),
@@ -252,6 +252,10 @@ pub fn gen_op(r: &mut Rng, d: Dim, out: &mut Vec<u8>, f: &Feat) {
             out.extend(s);
         }
         60..=69 => idiom(r, d, out),
+        72..=75 => {
+            let k = 70 + r.below(8);
+            idiom_n(r, d, out, k);
+        }
         _ => gen_text(r, out),
     }
 }
@@ -368,6 +372,100 @@ pub fn idiom_n(r: &mut Rng, d: Dim, out: &mut Vec<u8>, k: u64) {
                 out.extend(op.as_bytes());
             }
         }
+        70 | 71 => {
+            // DCS: ESC P params intermediates final payload terminator (hook/put/unhook are ignored
+            // by vt100 but drive the vte state machine through its DCS states)
+            out.extend(b"\x1bP");
+            match r.below(5) {
+                0 => {}
+                1 => out.extend(format!("{}", r.below(70000)).as_bytes()),
+                2 => out.extend(format!("{};{}", r.below(300), r.below(300)).as_bytes()),
+                3 => out.extend(b"1:2;3"),
+                _ => {
+                    for i in 0..(30 + r.below(8)) {
+                        out.extend(format!("{};", i).as_bytes());
+                    }
+                }
+            }
+            match r.below(6) {
+                0 => out.extend(b"$"),
+                1 => out.extend(b"$#"),
+                2 => out.extend(b"?"),       // private marker after params: DcsIgnore
+                3 => out.extend(b"\x07\x0a"), // C0 inside DCS entry/param: ignored
+                _ => {}
+            }
+            out.push(*r.pick(&[b'q', b'p', b'|', b'{', b'@', b'~', b'\x7f', b':']));
+            for _ in 0..r.below(12) {
+                out.push(*r.pick(&[b'a', b'1', b';', b'\n', b'\x07', b'\x7f', b' ', b'#', 0xc3, 0xa9]));
+            }
+            out.extend(*r.pick(&[&b"\x1b\\"[..], b"\x07", b"\x18", b"\x1a", b"\x1bc", b"\x1b[m", b"", b"\x9c", b"\xc2\x9c"]));
+            if r.chance(1, 2) {
+                gen_text(r, out);
+            }
+        }
+        72 | 73 => {
+            // CSI sequences that fall into CsiIgnore, with C0 controls executed inside, then a final byte
+            out.extend(b"\x1b[");
+            match r.below(6) {
+                0 => out.extend(b"1;<"),
+                1 => out.extend(b"1$<"),
+                2 => out.extend(b"!?"),
+                3 => out.extend(b"?1;2:3<"),
+                4 => out.extend(b"1 $ :"),
+                _ => out.extend(b"12=5"),
+            }
+            for _ in 0..r.below(5) {
+                out.push(*r.pick(&[b'1', b';', b'\n', b'\r', b'\x08', b'\x07', b' ', b':', b'?', b'\x7f']));
+            }
+            out.push(*r.pick(&[b'm', b'H', b'J', b'h', b'@', b'~', b'\x18', b'\x1a', b'\x1b']));
+            gen_text(r, out);
+        }
+        74 => {
+            // OSC ended by CAN / SUB / ESC / BEL / C1 ST, with 0, 1 or many parameters
+            out.extend(b"\x1b]");
+            match r.below(4) {
+                0 => {}
+                1 => out.extend(format!("{}", r.below(3)).as_bytes()),
+                2 => out.extend(format!("{};title {}", r.below(3), r.below(100)).as_bytes()),
+                _ => {
+                    for i in 0..(14 + r.below(6)) {
+                        out.extend(format!("{};", i).as_bytes());
+                    }
+                }
+            }
+            out.extend(*r.pick(&[&b"\x18"[..], b"\x1a", b"\x1b\\", b"\x07", b"\x1bc", b"\x1b[31m", b"\xc2\x9c", b"\x9c"]));
+            gen_text(r, out);
+        }
+        75 => {
+            // OSC whose raw buffer reaches vte's limit (1024 bytes), then more parameters
+            out.extend(b"\x1b]0;");
+            let n = 1015 + r.below(20);
+            for i in 0..n {
+                out.push(if i % 97 == 96 { b';' } else { b'a' + (i % 26) as u8 });
+            }
+            out.extend(*r.pick(&[&b";x;y"[..], b";", b"zz", b""]));
+            out.extend(*r.pick(&[&b"\x07"[..], b"\x1b\\", b"\x18"]));
+        }
+        76 => {
+            // CSI with 30..40 parameters / subparameters (vte keeps 32) and a known final byte
+            out.extend(b"\x1b[");
+            let n = 29 + r.below(8);
+            let sep = *r.pick(&[b';', b':']);
+            for i in 0..n {
+                out.extend(format!("{}", if r.chance(1, 4) { 38 } else { i % 9 }).as_bytes());
+                out.push(if r.chance(1, 6) { b':' } else { sep });
+            }
+            out.extend(format!("3{}", r.below(8)).as_bytes());
+            out.push(*r.pick(&[b'm', b'H', b'r', b'h', b'J', b'q']));
+            gen_text(r, out);
+        }
+        77 => {
+            // truncated / malformed extended colours at the end of an SGR
+            let pre = *r.pick(&["", "1;", "0;", "4;31;"]);
+            let c = *r.pick(&["38", "48", "38;2", "38;5", "48;2;1", "48;2;1;2", "38;9", "38;2;256;1;1", "38;5;300", "38;;5", "38;2;;", "48;5;", "38:2", "38:5", "38:2:1:2", "38:", "38;2:1"]);
+            out.extend(format!("\x1b[{pre}{c}m").as_bytes());
+            gen_text(r, out);
+        }
         _ => {}
     }
 }
@@ -412,7 +510,9 @@ pub fn cut(r: &mut Rng, bytes: &[u8], ncuts: u64) -> Vec<Vec<u8>> {
 pub fn p_lines(r: &mut Rng, bytes: &[u8], lines: &mut Vec<String>) {
     let ncuts = if r.chance(1, 3) { r.below(4) } else { 0 };
     for c in cut(r, bytes, ncuts) {
-        lines.push(format!("P {}", hex(&c)));
+        // io::Write::write is the other way into the parser
+        let op = if r.chance(1, 8) { "W" } else { "P" };
+        lines.push(format!("{} {}", op, hex(&c)));
     }
 }
 
@@ -538,8 +638,9 @@ pub fn fam_chunk(r: &mut Rng) -> Case {
             }
         }
     };
+    let via_write = r.chance(1, 6);
     for c in &chunks {
-        lines.push(format!("P {}", hex(c)));
+        lines.push(format!("{} {}", if via_write { "W" } else { "P" }, hex(c)));
         lines.push(format!("VP {}", hex(c)));
     }
     lines.push("DUMP".into());
